@@ -96,6 +96,13 @@ def install(handler, g):
         p2 = uu.Parameter(torch.zeros(6), "bias") if tagged else nn.Parameter(torch.zeros(6))
         p3 = uu.Parameter(torch.zeros(2, 2), "output") if tagged else nn.Parameter(torch.zeros(2, 2))
 
+        # loop-carried state: when untagged parameters are allowed, a parameter of the OTHER kind
+        # precedes the configured ones in the same group
+        p0 = None
+        if cfg["allow"]:
+            p0 = nn.Parameter(torch.zeros(5)) if tagged else uu.Parameter(torch.zeros(4, 5), "weight", 3)
+        is_tagged = lambda q: hasattr(q, "mup_type")  # noqa: E731
+
         def mk_lr(kind, v):
             return None if kind == "absent" else (v if kind == "float" else torch.tensor(v))
 
@@ -104,21 +111,21 @@ def install(handler, g):
         grp_wd = max(0.0, rval(w, "group_weight_decay", 0.2))
         bad = []
         # two instantiations of the arbitrary lr_scale_func: a generic one and the constant 1
-        for factor in (lambda p: {12: 0.37, 6: 1.0, 4: 2.5}[p.numel()], lambda p: 1.0):
+        for factor in (lambda p: {12: 0.37, 6: 1.0, 4: 2.5, 20: 0.11}[p.numel()], lambda p: 1.0):
             glr = mk_lr(cfg["global_lr"], 0.5)
             if cfg["entry"] == "tensor":
-                params, src = [p1, p2, p3], [(glr, gwd)] * 3
+                params, src = ([p0] if p0 is not None else []) + [p1, p2, p3], [(glr, gwd)] * (3 + (p0 is not None))
                 entries_before = None
             else:
                 lr_g = mk_lr(cfg["group_lr"], 0.25)
-                gr = {"params": [p1, p2], "betas": (0.8, 0.9), "momentum": 0.3}
+                gr = {"params": ([p0] if p0 is not None else []) + [p1, p2], "betas": (0.8, 0.9), "momentum": 0.3}
                 if lr_g is not None:
                     gr["lr"] = lr_g
                 if cfg["group_wd"]:
                     gr["weight_decay"] = grp_wd
                 gr2 = {"params": [p3]}
                 params = [gr, gr2]
-                src = [(gr.get("lr", glr), gr["weight_decay"] if "weight_decay" in gr else gwd)] * 2 + [(glr, gwd)]
+                src = [(gr.get("lr", glr), gr["weight_decay"] if "weight_decay" in gr else gwd)] * len(gr["params"]) + [(glr, gwd)]
                 entries_before = [dict(gr), dict(gr2), list(gr["params"])]
             lr_now = lambda: (glr, params[0].get("lr") if isinstance(params[0], dict) else None)  # noqa: E731
             lr_before = [None if not isinstance(x, torch.Tensor) else x.clone() for x in lr_now()]
@@ -129,12 +136,12 @@ def install(handler, g):
                 return (not expect) and clause.startswith("error_cases"), f"ValueError: {e}"
             except Exception as e:
                 return True, f"raised {type(e).__name__}: {e}"
-            ps = [p1, p2, p3]
-            if len(out) != 3 or any(len(g_["params"]) != 1 or g_["params"][0] is not q for g_, q in zip(out, ps)):
+            ps = ([p0] if p0 is not None else []) + [p1, p2, p3]
+            if len(out) != len(ps) or any(len(g_["params"]) != 1 or g_["params"][0] is not q for g_, q in zip(out, ps)):
                 bad.append("groups are not one-per-parameter in input order")
                 continue
             for g_, q, (slr, swd) in zip(out, ps, src):
-                f = factor(q) if tagged else 1.0
+                f = factor(q) if is_tagged(q) else 1.0
                 if slr is None:
                     continue
                 want = float(slr) * f
